@@ -87,7 +87,7 @@ class PEval:
         self.steps = 0
         self.max_steps = max_steps
         self._modcache: Dict[Tuple[str, str], Any] = {}
-        self.dupes: List[Any] = []      # keys that occur twice within one dict literal / comprehension / pair list
+        self.dupes: List[Any] = []      # keys that occur twice within one dict literal
 
     def _tick(self):
         self.steps += 1
@@ -551,8 +551,8 @@ class PEval:
             for k, v in results:
                 if k is UNKNOWN:
                     raise CannotEval('dict comprehension key is not constant')
-                if _hashable(k) in out:
-                    self.dupes.append(k)
+                # (rows of a generating table may overlap on purpose, "the later, more specific rule wins": only a key written
+                # twice in one dict *literal* is reported as a duplicate)
                 out[_hashable(k)] = v
             return out
         if isinstance(e, ast.SetComp):
@@ -692,6 +692,27 @@ class PEval:
                         return UNKNOWN
                     out.extend(self._iterate(a))
                 return out
+            if fn.path in ('itertools.chain.from_iterable',) and len(args) == 1:
+                if args[0] is UNKNOWN:
+                    return UNKNOWN
+                out = []
+                for a in self._iterate(args[0]):
+                    if a is UNKNOWN:
+                        return UNKNOWN
+                    out.extend(self._iterate(a))
+                return out
+            if fn.path in ('itertools.product',) and args and not kwargs:
+                import itertools as _it
+                if any(a is UNKNOWN for a in args):
+                    return UNKNOWN
+                return [tuple(x) for x in _it.product(*[self._iterate(a) for a in args])]
+            if fn.path in ('itertools.repeat',) and len(args) == 2 and isinstance(args[1], int) and args[1] <= 4096:
+                return [args[0]] * args[1]
+            if fn.path in ('itertools.islice',) and 2 <= len(args) <= 4 and all(isinstance(a, int) or a is None for a in args[1:]):
+                import itertools as _it
+                if args[0] is UNKNOWN:
+                    return UNKNOWN
+                return list(_it.islice(self._iterate(args[0]), *args[1:]))
             return UNKNOWN
         return UNKNOWN
 
@@ -800,8 +821,6 @@ class PEval:
                     else:
                         for pair in self._iterate(src):
                             k, v = pair
-                            if _hashable(k) in out:
-                                self.dupes.append(k)
                             out[_hashable(k)] = v
                 out.update(kwargs)
                 return out
@@ -879,11 +898,7 @@ class PEval:
                             raise CannotEval('update with a non-constant mapping')
                         else:
                             src = [tuple(x) for x in self._iterate(a)]
-                        seen_here = set()
                         for k, v in src:
-                            if _hashable(k) in seen_here:
-                                self.dupes.append(k)      # twice within the one mapping handed to update()
-                            seen_here.add(_hashable(k))
                             obj[_hashable(k)] = v
                     obj.update(kwargs)
                     return None
